@@ -21,6 +21,8 @@ class Binding:
         self.names = names  # list (per select column) of name or None
         self.stmt = stmt  # the binding statement (ast)
         self.kind = kind  # 'columns' (each name = whole column array) | 'rows' (per-row scalars) | 'scalar'
+        self.matrix = None      # name of the 2-D array of rows the columns were taken from (M.T / M[:, k]), if any
+        self.transforms = []    # [(function, axis text, call)] applied to that array before the columns were taken
 
 
 def _target_names(t):
@@ -273,6 +275,51 @@ def _bind_in_stmt(s, stmt, source, recv):
                     return Binding(s, nm, stmt, "scalar")
                 return Binding(s, [None] * ncols, stmt, "scalar-row:%s" % target.id)
         return None
+    # a 2-D array of the rows:  M = [wrappers](np.array(rows, ...)) ; later (a, b) = M.T  /  a = M[:, k]
+    if isinstance(target, ast.Name) and fetch is not None and fetch.func.attr == "fetchall" or \
+            (isinstance(target, ast.Name) and fetch is None and isinstance(source, ast.Name)):
+        rows_expr = fetch if fetch is not None else source
+        core = value
+        transforms = []
+        for _h in range(4):
+            if isinstance(core, ast.Call) and (dotted_name(core.func) or "").split(".")[-1] in ("sort", "flipud", "flip", "unique", "ascontiguousarray") \
+                    and core.args and isinstance(core.func, ast.Attribute):
+                fn = (dotted_name(core.func) or "").split(".")[-1]
+                ax = next((k.value for k in core.keywords if k.arg == "axis"), core.args[1] if len(core.args) > 1 else None)
+                transforms.append((fn, ast.unparse(ax) if ax is not None else None, core))
+                core = core.args[0]
+            else:
+                break
+        if isinstance(core, ast.Call) and (dotted_name(core.func) or "").split(".")[-1] in ("array", "asarray") and core.args:
+            a0 = core.args[0]
+            while isinstance(a0, ast.Call) and isinstance(a0.func, ast.Name) and a0.func.id in ("list", "tuple") and len(a0.args) == 1:
+                a0 = a0.args[0]
+            if a0 is rows_expr:
+                f_ = stmt
+                while f_ is not None and not isinstance(f_, (ast.FunctionDef, ast.AsyncFunctionDef)):
+                    f_ = getattr(f_, "parent", None)
+                stores = [n for n in ast.walk(f_) if isinstance(n, ast.Name) and isinstance(n.ctx, ast.Store) and n.id == target.id] if f_ is not None else []
+                if f_ is not None and len(stores) == 1:
+                    nm = [None] * ncols
+                    for a in ast.walk(f_):
+                        if not isinstance(a, ast.Assign) or len(a.targets) != 1:
+                            continue
+                        v_ = a.value
+                        if isinstance(v_, ast.Attribute) and v_.attr == "T" and isinstance(v_.value, ast.Name) and v_.value.id == target.id \
+                                and isinstance(a.targets[0], (ast.Tuple, ast.List)) and len(a.targets[0].elts) == ncols:
+                            for k_, e in enumerate(a.targets[0].elts):
+                                if isinstance(e, ast.Name):
+                                    nm[k_] = e.id
+                        if isinstance(v_, ast.Subscript) and isinstance(v_.value, ast.Name) and v_.value.id == target.id and isinstance(v_.slice, ast.Tuple) \
+                                and len(v_.slice.elts) == 2 and isinstance(v_.slice.elts[0], ast.Slice) and v_.slice.elts[0].lower is None \
+                                and v_.slice.elts[0].upper is None and v_.slice.elts[0].step is None and isinstance(v_.slice.elts[1], ast.Constant) \
+                                and isinstance(v_.slice.elts[1].value, int) and isinstance(a.targets[0], ast.Name) and -ncols <= v_.slice.elts[1].value < ncols:
+                            nm[v_.slice.elts[1].value % ncols] = a.targets[0].id
+                    if any(nm):
+                        b = Binding(s, nm, stmt, "columns")
+                        b.matrix = target.id
+                        b.transforms = transforms
+                        return b
     # zip(*rows) shapes
     # find the Starred ancestor of source
     n = source
@@ -304,7 +351,11 @@ def _bind_in_stmt(s, stmt, source, recv):
         pp = getattr(n, "parent", None)
         if isinstance(pp, ast.comprehension) and pp.iter is n:
             ce = getattr(pp, "parent", None)
-            if isinstance(ce, (ast.ListComp, ast.GeneratorExp)) and ce is value and isinstance(target, ast.Name):
+            # np.array([...], dtype=...) / np.asarray / list around the comprehension: the same column
+            vcore = value
+            while isinstance(vcore, ast.Call) and vcore.args and ((dotted_name(vcore.func) or "").split(".")[-1] in ("array", "asarray", "list", "tuple", "fromiter")):
+                vcore = vcore.args[0]
+            if isinstance(ce, (ast.ListComp, ast.GeneratorExp)) and (ce is value or ce is vcore) and isinstance(target, ast.Name):
                 elt = ce.elt
                 t = pp.target
                 nm = [None] * ncols
